@@ -375,7 +375,8 @@ func Run(tier string, seed int64, outDir string) *common.Meta {
 			}
 		}
 	}
-	meta.Evaluations = len(configs) * 3
+	inert := inertParameters(meta, outDir)
+	meta.Evaluations = len(configs)*3 + inert
 	meta.Distinct = nontrivial
 	meta.Rule = "configurations = enableAll x enable list x disable list over an alphabet of own/other names, the six #tags, unknown and empty keys (exhaustive for lists of length <= 2 in thorough, all length <= 1 plus a 1/12 sample in quick), plus random lists up to length 4 with analyzer-dialect padding; each is run through both CLI mains (bridge), the analyzer hook and the Coq model; distinct_nontrivial counts distinct (CLI set, analyzer set) outcomes that select a proper non-empty subset"
 
